@@ -574,8 +574,8 @@ def _stub_logger_attr(E, o, name):
     return Builtin(f"stub.{name}", rec)
 
 
-def _stub(E, i):
-    return E.new_obj(STUB, name=f"member{i}", **{"$calls": [], "$n_episodes": E.int(f"member{i}.n_episodes")})
+def _stub(E, i, n_episodes):
+    return E.new_obj(STUB, name=f"member{i}", **{"$calls": [], "$n_episodes": n_episodes})
 
 
 def _ident(a, b):
@@ -591,13 +591,14 @@ def _ident(a, b):
 def mk_list_fanout(n_members):
     """every member receives every call exactly once, with identical arguments, in list order"""
     def h(E):
-        members = [_stub(E, i) for i in range(n_members)]
+        n_ep = E.int("members.n_episodes")  # members driven only through the list count the same episodes
+        members = [_stub(E, i, n_ep) for i in range(n_members)]
         ll = E.call(Q + "LoggerList", list(members))
         if ll.fields.get("loggers") is None or len(ll.fields["loggers"]) != n_members or any(a is not b for a, b in zip(ll.fields["loggers"], members)):
             E.st.fail("list.init.keeps_members", repr(ll.fields.get("loggers")))
             return
         E.st.ok("list.init.keeps_members")
-        OB(E, "list.n_episodes_is_first_members", C.compare("==", E.getattr(ll, "n_episodes"), members[0].fields["$n_episodes"]))
+        OB(E, "list.n_episodes_is_members_common_counter", C.compare("==", E.getattr(ll, "n_episodes"), n_ep))
         model = mk_net(E, "model", 1)
         hp = {"gamma": E.real("gamma")}
         calls = [
@@ -786,6 +787,7 @@ def h_orbax_two_records(E):
     each crossing of one or more multiples of the interval yields exactly one
     checkpoint on the record that passed it - none lost, none counted twice"""
     o = mk_orbax(E)
+    o.fields["verbose"] = 0  # printing only (symbolic in the single-call tasks)
     f, e, last = configure(E, o, KEY)
     model = mk_net(E, "model", 1)
     s1, s2 = E.int("step1"), E.int("step2")
@@ -912,23 +914,47 @@ def h_standard_define(E):
 
 
 def h_list_mixed(E):
-    """a LoggerList of a MemoryLogger and an OrbaxCheckpointer: the checkpointer
-    member checkpoints exactly as if it had been called directly"""
+    """a LoggerList of a MemoryLogger, an OrbaxCheckpointer and a StandardLogger
+    (the combination the deprecation note recommends): the checkpointer member
+    checkpoints exactly as if it had been called directly, the recording
+    members hold identical records, nobody else is disturbed"""
     mem = mk_logger(E, "MemoryLogger", tag="#mem")
     orb = mk_orbax(E, tag="#orb")
+    std = mk_logger(E, "StandardLogger", tag="#std", share=mem)
     f, e, last = configure(E, orb, KEY)
-    ll = E.new_obj(Q + "LoggerList", name="logger_list", loggers=[mem, orb])
+    ll = E.new_obj(Q + "LoggerList", name="logger_list", loggers=[mem, orb, std])
     model = mk_net(E, "model", 1)
     s = E.int("step")
     E.assume(s >= last)
-    b_mem, b_orb = snap(mem), snap(orb)
+    b_mem, b_orb, b_std = snap(mem), snap(orb), snap(std)
     pb = _before(orb.fields["checkpoint_path"][KEY])
     ck = orb.fields["checkpointer"]
     E.call(E.getattr(ll, "record_epoch"), KEY, model, step=s)
     check_saves(E, "listmixed", orb, KEY, model, _events_since(ck, 0), pb, C.compare(">", s // f, last // f))
     frame(E, "listmixed.memory", mem, b_mem)
     frame(E, "listmixed.orbax", orb, b_orb, allowed={f"epoch[{KEY}]", f"last_step[{KEY}]", f"checkpoint_path[{KEY}]", "lpad_keys", "checkpointer"})
+    frame(E, "listmixed.standard", std, b_std, allowed={f"epoch[{KEY}]", f"epoch_loc[{KEY}]", "lpad_keys"})
     OB(E, "canary.listmixed", C.compare("==", orb.fields["last_step"].get(KEY, 0), last), assume_after=False)
+    # statistics through the same list
+    b_orb = snap(orb)
+    v, st, total = E.val("value"), E.int("stat_step"), E.int("total_steps")
+    n = mem.hist[KEY][0]
+    e0, s0 = mem.fields["_n_episodes"], mem.fields["n_steps"]
+    E.call(E.getattr(ll, "start_new_episode"))
+    E.call(E.getattr(ll, "record_stat"), KEY, v, step=st)
+    E.call(E.getattr(ll, "stop_episode"), total)
+    for nm, m in (("memory", mem), ("standard", std)):
+        x, y = E.call(E.getattr(m, "get_stat"), KEY, "step")
+        xe, _ = E.call(E.getattr(m, "get_stat"), KEY, "episode")
+        OB(E, f"listmixed.{nm}.record", band(C.compare("==", y.shape[0], n + 1), Sym(_as_val(y.at(n)) == v.z), C.compare("==", x.at(n), st), C.compare("==", xe.at(n), e0 + 1)))
+        OB(E, f"listmixed.{nm}.counters", band(C.compare("==", m.fields["_n_episodes"], e0 + 1), C.compare("==", m.fields["n_steps"], s0 + total)))
+        lwf(E, f"listmixed.{nm}", m)
+    OB(E, "listmixed.orbax.counters", band(C.compare("==", orb.fields["_n_episodes"], b_orb["_n_episodes"][1] + 1), C.compare("==", orb.fields["n_steps"], b_orb["n_steps"][1] + total)))
+    frame(E, "listmixed.orbax.stats_do_nothing", orb, b_orb, allowed={"_n_episodes", "n_steps"})
+    if _events_since(ck, 0) and len([x for x in _events_since(ck, 0) if x[0] == "save"]) > 1:
+        E.st.fail("listmixed.no_checkpoint_from_statistics", "a statistics call saved a checkpoint")
+    else:
+        E.st.ok("listmixed.no_checkpoint_from_statistics")
 
 
 def _T(name, h, **kw):
